@@ -61,4 +61,25 @@ JUnitTrace(e) ==
       exp == StartInFront(UnitFinish(UnitVisitAll(R, R, e.order)), e.pre.start)
   IN BadB("binding_unit_order_is_permutation", ToSet(e.order) # ToSet(e.pre.V) \/ Len(e.order) # Len(e.pre.V))
      \cup BadB("binding_unit_result_is_model_result", exp # e.res.R)
+(* nfa_find_epsilon_path: pops and examined edges in order, the returned path *)
+RECURSIVE PathReplay(_, _, _, _)
+PathReplay(E, f, st, steps) ==
+  IF steps = <<>> THEN [st |-> st, ok |-> TRUE]
+  ELSE LET x == Head(steps)
+       IN IF st.found THEN [st |-> st, ok |-> FALSE]                       \* nothing may follow the discovery of f
+          ELSE IF x[1] = "pop"
+               THEN IF x[2] \notin st.todo THEN [st |-> st, ok |-> FALSE]
+                    ELSE PathReplay(E, f, PathPop(st, x[2]), Tail(steps))
+               ELSE IF x[2] # st.cur \/ <<x[2], x[3]>> \notin E THEN [st |-> st, ok |-> FALSE]
+                    ELSE PathReplay(E, f, PathEdge(st, f, x[3]), Tail(steps))
+JPathTrace(e) ==
+  LET A == FaOf(e.fa)
+      E == EpsEdges(A)
+      R == ToSet(e.R)
+      r == PathReplay(E, e.f, PathInit(R), e.steps)
+  IN BadB("binding_path_choices_enabled", ~r.ok)
+     \cup BadB("binding_path_result_is_model_result",
+               r.ok /\ (IF e.f \in R THEN e.res # <<e.f>> \/ e.steps # <<>>
+                        ELSE IF r.st.found THEN e.res # PathWalk(r.st.bp, R, e.f, Cardinality(A.Q) + 1)
+                        ELSE e.res # <<"~none~">> \/ r.st.todo # {}))
 =============================================================================
